@@ -6,6 +6,12 @@ props = [json.loads(l) for l in open(os.path.join(V, "properties.jsonl"))]
 
 # id -> (level, technique, level text, level note, design ref)
 CLAIMED = {
+ "C16": ("exploration", "deterministic simulation: seeded schedules of clone/read/move/drop across threads (detsim, accounting allocator) + Miri seeded scheduler (UB, data race, leak oracle)",
+         "Seeded search over interleavings of 2-4 threads cloning, reading, moving and dropping clones of one buffer built through every constructor path, with scheduling points in front of the refcount operations; oracles: byte-exact content through every clone, accounting allocator (every block freed once with the layout it was allocated with, nothing live at the end). The Miri engine runs the same kernel on real atomics with UB/data-race/leak detection. Sampling, not proof.",
+         "Engine A is sequentially consistent; wrong memory orderings are only visible to Miri. UTF-8/Eq/Ord/Hash clauses are pure functions of generated data (exercised, not decided by scheduling).", "DESIGN.md §7 C16"),
+ "C17": ("exploration", "deterministic simulation: seeded schedules of racing initialisers with Ok/Err/panic outcomes (detsim, OnceCell model, drop ledger) + Miri seeded scheduler with the real once_cell",
+         "Seeded search over interleavings of 1-4 threads calling get / get_or_init / get_or_try_init with generated initialiser outcomes (success, error, panic) on cells whose seed has a destructor, none, a panicking one, or is zero-sized; oracles: mutual exclusion and once-only success, same reference for all callers, seed identity and liveness across failures, get never blocks, exactly one of seed/value live, each dropped once. Sampling, not proof.",
+         "Under engine A once_cell::sync::OnceCell is a model (blocking initialisers, reset on failure); the Miri engine uses the real crate.", "DESIGN.md §7 C17"),
  "C18": ("exploration", "deterministic simulation: seeded schedules of racing update/fetch_max/swap callers (detsim) + Miri seeded scheduler; linearizability check against a max-register model",
          "Seeded search over interleavings of 2-4 threads operating on one AtomicReloadId, with a scheduling point in front of every atomic operation; each history is checked for linearizability against the sequential max model, plus the direct statements (final = max offered, one `true` per distinct growth). Sampling, not proof.",
          "Engine A is sequentially consistent and treats each atomic RMW as indivisible; non-atomic replacements and weak-memory effects are only visible to the Miri engine. ReloadId values are forged through a layout-checked transmute.", "DESIGN.md §7 C18"),
